@@ -79,6 +79,13 @@ try:
     meta = json.load(open(os.path.join(src, "meta.json")))
 except Exception:
     pass
+prev = {}
+try:
+    prev = json.load(open(os.path.join(dst, "meta.json")))
+except Exception:
+    pass
+if a.skip_demo and prev.get("confirmed_by_lead"):
+    res["confirmed_by_lead"] = prev["confirmed_by_lead"]
 meta.update(res)
 meta["property"] = a.prop
 json.dump(meta, open(os.path.join(dst, "meta.json"), "w"), indent=1)
